@@ -420,8 +420,25 @@ func TestVerif_C04_Faults(t *testing.T) {
 		// dry run on a copy
 		dry := base.fork()
 		seq0, mut0 := dry.tc.rec.Seq(), dry.tc.rec.MutationCount()
+		gDry := verifx.GoID()
 		r := dry.revoke(kind, target)
 		nOps := int(dry.tc.rec.Seq() - seq0)
+		// positions (1-based, among the operations of the request goroutine) of the writes of the revocation: the quick
+		// tier fails every write and a spread sample of the reads; the thorough tier fails every operation
+		var writeKs []int
+		{
+			i := 0
+			for _, o := range dry.tc.rec.OpsSince(seq0) {
+				if o.G != gDry {
+					continue
+				}
+				i++
+				if o.Kind == "put" || o.Kind == "delete" || o.Kind == "commit" {
+					writeKs = append(writeKs, i)
+				}
+			}
+			nOps = i
+		}
 		nMut := dry.tc.rec.MutationCount() - mut0
 		if !r.ok() {
 			dry.tc.shutdown()
@@ -438,7 +455,20 @@ func TestVerif_C04_Faults(t *testing.T) {
 		dryRec := dry.tc.rec
 		dry.tc.shutdown()
 
-		ks := pickKs(nOps, verifx.Scale(14, 1<<30))
+		ks := pickKs(nOps, verifx.Scale(8, 1<<30))
+		if !verifx.Thorough() {
+			seen := map[int]bool{}
+			for _, k := range ks {
+				seen[k] = true
+			}
+			for _, k := range writeKs {
+				if !seen[k] && len(ks) < 60 {
+					ks = append(ks, k)
+					seen[k] = true
+				}
+			}
+			sort.Ints(ks)
+		}
 		for _, k := range ks {
 			w := base.fork()
 			func() {
